@@ -701,7 +701,7 @@ func runC14(cx *CheckCtx) {
 			for _, s := range []*Site{delN, delU, delR, putN, putR} {
 				s := s
 				ok, why := alwaysReached(a, s, func(st *CNF) bool {
-					return s == putR && (a.holdsAt(st, a.litNil(repl)) || a.holdsAt(st, a.litEqC(a.litLen(repl), 0)))
+					return s == putR && (a.holdsAt(st, a.litNil(repl)) || a.holdsAt(st, a.litEqC(a.litLen(repl), 0)) || a.holdsAt(st, a.litLtC(a.litLen(repl), 1)))
 				})
 				if !ok {
 					okEvery, whyEvery = false, siteDesc(a, s)+": "+why
@@ -787,54 +787,11 @@ func checkDistinctCounting(cx *CheckCtx, fn *ssa.Function) {
 		return
 	}
 	T := vIf.Block().Succs[0]
-	// (b) membership loop
-	var memIf *ssa.If
-	var coll ssa.Value
-	for _, b := range fn.Blocks {
-		i, ok := b.Instrs[len(b.Instrs)-1].(*ssa.If)
-		if !ok {
-			continue
-		}
-		x, y, isEq := isEqualityCall(i.Cond)
-		if !isEq {
-			continue
-		}
-		for _, pr := range [][2]ssa.Value{{x, y}, {y, x}} {
-			if pr[0] == pub {
-				if c, ok := elementOf(pr[1]); ok {
-					memIf, coll = i, c
-				}
-			}
-		}
-	}
+	// (b) membership test: in place, through a flag, or through a contains helper (membershipGuard)
+	okDom, memIf, coll := membershipGuard(fn, func(v ssa.Value) bool { return v == pub }, vb)
 	if memIf == nil {
 		cx.violated("distinct-principal", key, "the signature check is not guarded by a membership test of the candidate member key against the members already counted: one member's signature repeated REP times (or a malleated copy) satisfies a vector", w.pos(V.Pos()))
 		return
-	}
-	hm := innermostLoop(memIf.Block())
-	hv := innermostLoop(vb)
-	okDom := false
-	if hm != nil && !loopBlocks(hm)[vb] {
-		// normal exit of the membership loop
-		var done *ssa.BasicBlock
-		for _, s := range hm.Succs {
-			if !loopBlocks(hm)[s] {
-				done = s
-			}
-		}
-		okDom = done != nil && done.Dominates(vb)
-		for _, e := range loopExits(hm) {
-			if e.from == hm {
-				continue
-			}
-			// found-equal exit: must not reach the check within the same member iteration
-			if blockReaches(e.to, vb, hv) && e.to != hv {
-				okDom = false
-			}
-			if e.to == hv {
-				continue
-			}
-		}
 	}
 	cx.decide(okDom, "distinct-principal", key+"/membership-dominates", "the signature check is reached only after the candidate key was compared with every counted member and found different", "the signature check can be reached although the candidate member was already counted (the membership loop does not dominate it or its 'found' exit falls through)", w.pos(memIf.Pos()))
 	// (c) insertion + counting on the success branch
